@@ -103,7 +103,7 @@ def oracle_c02(ctx: Ctx, n):
                     ctx.finding(f"eval-raise|{opname}|{ta}|{tb}", f"evaluate raised {type(e).__name__}", {"a": ta, "b": tb, "env": _envs(env)}, None, repr(e))
                     break
                 if exp != got:
-                    ctx.finding(f"{opname}|{ta}|{tb}", f"(a {'&' if opname == 'and' else '|'} b).evaluate differs from the combination of the operands",
+                    ctx.finding(f"{env_class([ta, tb], env)}{opname}|{ta}|{tb}", f"(a {'&' if opname == 'and' else '|'} b).evaluate differs from the combination of the operands",
                                 {"a": ta, "b": tb, "env": _envs(env)}, exp, {"result": str(r), "value": got})
                     break
             else:
@@ -112,6 +112,20 @@ def oracle_c02(ctx: Ctx, n):
                 if r.is_any() and not all(comb(ev(a, e), ev(b, e)) for e in envs):
                     ctx.finding(f"is_any|{opname}|{ta}|{tb}", "result reports is_any() but some environment does not satisfy it", {"a": ta, "b": tb}, False, True)
     ctx.sample({"stream": "oracle-C02", "a": parsed[0][0], "b": parsed[-1][0]})
+
+
+def env_class(texts, env) -> str:
+    """class prefix for findings that are instances of the recorded `in`-list defect: an atom
+    `python_version [not] in "<list>"` whose environment value is a SUBSTRING of the list text but not one of
+    its comma-separated elements (e.g. 3.1 against "3.9, 3.10"): evaluation is PEP 508 string containment,
+    the specifier view treats the list as a set of versions"""
+    import re
+    for t in texts:
+        for var, lst in re.findall(r'(python_version|python_full_version) (?:not in|in) "([^"]*)"', t or ""):
+            val = env.get(var)
+            if isinstance(val, str) and val in lst and val not in [x.strip() for x in lst.split(",")]:
+                return "pv-in-substring|"
+    return ""
 
 
 def _envs(env):
@@ -148,7 +162,7 @@ def oracle_c03(ctx: Ctx, n):
                 except Exception as ex:  # noqa: BLE001
                     got = repr(ex)
                 if got != exp:
-                    ctx.finding(f"eval|{t}", "parse_marker(text).evaluate(env) differs from packaging's Marker(text).evaluate(env)",
+                    ctx.finding(f"{env_class([t], e)}eval|{t}", "parse_marker(text).evaluate(env) differs from packaging's Marker(text).evaluate(env)",
                                 {"marker": t, "env": _envs(e)}, exp, {"parsed_as": str(m), "value": got})
                     break
             else:
@@ -305,7 +319,7 @@ def oracle_c07(ctx: Ctx, n):
                 ctx.finding(f"eval-raise|{desc}", f"evaluate raised {type(e).__name__}", {"operation": desc, "text": s}, None, repr(e))
                 break
             if x != y:
-                ctx.finding(f"roundtrip|{desc}", "re-parsed marker evaluates differently", {"operation": desc, "text": s, "env": _envs(env)}, x, {"reparsed": str(back), "value": y})
+                ctx.finding(f"{env_class(src + [s], env)}roundtrip|{desc}", "re-parsed marker evaluates differently", {"operation": desc, "text": s, "env": _envs(env)}, x, {"reparsed": str(back), "value": y})
                 break
     ctx.sample({"stream": "oracle-C07", "case": desc})
 
@@ -331,10 +345,10 @@ def oracle_c12(ctx: Ctx, n):
             for env in envs:
                 try:
                     if ev(m, env) and not ev(r, env):
-                        ctx.finding(f"only-impl|{desc}|{keep}", "m is satisfied but m.only(names) is not", {"marker": desc, "names": keep, "env": _envs(env)}, True, {"result": str(r), "value": False})
+                        ctx.finding(f"{env_class(src, env)}only-impl|{desc}|{keep}", "m is satisfied but m.only(names) is not", {"marker": desc, "names": keep, "env": _envs(env)}, True, {"result": str(r), "value": False})
                         break
                     if set(vs) <= set(keep) and ev(m, env) != ev(r, env):
-                        ctx.finding(f"only-id|{desc}", "only(all mentioned names) changes the meaning", {"marker": desc, "env": _envs(env)}, ev(m, env), {"result": str(r)})
+                        ctx.finding(f"{env_class(src, env)}only-id|{desc}", "only(all mentioned names) changes the meaning", {"marker": desc, "env": _envs(env)}, ev(m, env), {"result": str(r)})
                         break
                 except Exception as e:  # noqa: BLE001
                     break
@@ -386,7 +400,7 @@ def oracle_c14_markers(ctx: Ctx, n=None):
                 except Exception:  # noqa: BLE001
                     break
                 if x != y:
-                    ctx.finding(f"m-{lname}|{ta}|{tb}|{tc}", f"marker law {lname}: the two sides evaluate differently",
+                    ctx.finding(f"{env_class([ta, tb, tc], env)}m-{lname}|{ta}|{tb}|{tc}", f"marker law {lname}: the two sides evaluate differently",
                                 {"law": lname, "a": ta, "b": tb, "c": tc, "env": _envs(env)}, "equal truth values", {"lhs": str(l), "rhs": str(r), "values": [x, y]})
                     break
 
@@ -438,7 +452,7 @@ def oracle_c13_markers(ctx: Ctx, n):
                         continue
                     for env in envs:
                         if ev(rr[0], env) != ev(rr[1], env):
-                            ctx.finding(f"m-congr|{_atomclass(a)}|{opn}|{ta}|{tb}", "equal operands give results with different meaning",
+                            ctx.finding(f"{env_class([ta, tb, str(c)], env)}m-congr|{_atomclass(a)}|{opn}|{ta}|{tb}", "equal operands give results with different meaning",
                                         {"x": ta, "y": tb, "other": str(c), "op": opn, "env": _envs(env)}, "same meaning", [str(rr[0]), str(rr[1])])
                             break
         except Exception as e:  # noqa: BLE001
@@ -457,7 +471,7 @@ def oracle_c11(ctx: Ctx):
     from packaging.specifiers import SpecifierSet
     from dep_logic.markers.single import MarkerExpression
     from dep_logic.specifiers import parse_version_specifier
-    interps = [(x, y, z) for x in (2, 3, 4) for y in (0, 5, 6, 7, 8, 9, 10, 11) for z in (0, 1, 2, 9)]
+    interps = [(x, y, z) for x in (2, 3, 4) for y in (0, 1, 5, 6, 7, 8, 9, 10, 11) for z in (0, 1, 2, 9)]
     if ctx.tier == "thorough":
         interps = [(x, y, z) for x in (2, 3, 4) for y in range(0, 15) for z in (0, 1, 2, 9, 10)]
 
@@ -478,7 +492,7 @@ def oracle_c11(ctx: Ctx):
     for op in ("==", "!="):
         atoms += [("python_version", op, "3.*"), ("python_full_version", op, "3.7.*"), ("python_full_version", op, "3.*")]
     for op in ("in", "not in"):
-        atoms += [("python_version", op, "3.6, 3.7"), ("python_version", op, "2.7"), ("python_version", op, "3.6,3.10, 3.11")]
+        atoms += [("python_version", op, "3.6, 3.7"), ("python_version", op, "2.7"), ("python_version", op, "3.6,3.10, 3.11"), ("python_version", op, "3.9")]
     for name, op, lit in atoms:
         m = MarkerExpression(name, op, lit)
         ctx.count("oracle-C11", 1, nontrivial_key=("view", name, op, lit.count("."), "*" in lit))
@@ -497,7 +511,7 @@ def oracle_c11(ctx: Ctx):
                 ctx.finding(f"view-eval-raise|{name}|{op}|{lit}", f"evaluate/contains raised {type(e).__name__}", {"atom": str(m), "value": val}, None, repr(e))
                 break
             if a != b:
-                ctx.finding(f"view|{name}|{op}|{lit}", "the specifier view admits a different set than the atom evaluates true on",
+                ctx.finding(f"{env_class([str(m)], env)}view|{name}|{op}|{lit}", "the specifier view admits a different set than the atom evaluates true on",
                             {"atom": str(m), "value": val}, a, {"specifier": str(spec), "admits": b})
                 break
     simple = []
